@@ -820,17 +820,6 @@ func (a CreateClosureInstr) Execute(env *Zlisp) error {
 		//P("myInvok is copy of a.sfun '%s' with parent = %s", a.sfun.name, myInvok.parent.name)
 	}
 
-	ps8 := NewPrintStateWithIndent(8)
-	shown, err := myInvok.ShowClosing(env, ps8, fmt.Sprintf("closedOverScopes of '%s'", myInvok.name))
-	_ = shown
-	if err != nil {
-		return err
-	}
-	//VPrintf("+++ CreateClosure: assign to '%s' the stack:\n\n%s\n\n",		myInvok.SexpString(nil), shown)
-	top := cls.TopScope()
-	//VPrintf("222 CreateClosure: top of NewClosing Scope has addr %p and is\n",		top)
-	top.Show(env, ps8, fmt.Sprintf("top of NewClosing at %p", top))
-
 	env.datastack.PushExpr(myInvok)
 	return nil
 }
